@@ -1,5 +1,64 @@
-(** C14 -- placeholder while the proofs are built *)
-From RL Require Import Model.Decode.
-Theorem C14_placeholder : m_decode strict_opts [] = Val (Err [IncompleteFlags], []).
-Proof. reflexivity. Qed.
-Print Assumptions C14_placeholder.
+(** C14 -- Validation options only restrict; each checks exactly its bits; the
+    default entry point is version checking alone.  Stated on the Spec
+    ([s_decode]); transported to the Model by C05 ([m_decode] = [s_decode] on
+    every octet string). *)
+From RL Require Import Model.Decode Spec.SpecDecode Proofs.Options.
+
+Theorem C14_monotone : forall o o' b x, opts_le o o' = true ->
+  s_decode o' b = Ok x -> s_decode o b = Ok x.
+Proof. exact decode_monotone. Qed.
+
+Theorem C14_reject_monotone : forall o o' b es, opts_le o o' = true ->
+  s_decode o b = Err es -> exists es', s_decode o' b = Err es'.
+Proof. exact reject_monotone. Qed.
+
+Theorem C14_version_exact : forall o b, 2 <= len b ->
+  s_decode (with_version true o) b =
+  if fw_version (fld 2 0 b) =? 2 then s_decode (with_version false o) b
+  else Err [InvalidVersion (fw_version (fld 2 0 b))].
+Proof. exact version_exact. Qed.
+
+Theorem C14_reserved_exact : forall o b, 2 <= len b ->
+  (v_version o = false \/ fw_version (fld 2 0 b) = 2) ->
+  s_decode (with_reserved true o) b =
+  if fw_reserved_clear (fld 2 0 b) then s_decode (with_reserved false o) b
+  else Err [InvalidReservedBits].
+Proof. exact reserved_exact. Qed.
+
+Theorem C14_unused_exact : forall o b,
+  s_ctrl (with_unused true o) b =
+  if fw_P (fld 2 0 b) then Err [ForbiddenControlMessagePriority]
+  else if fw_O (fld 2 0 b) then Err [ForbiddenControlMessageOffset]
+  else s_ctrl (with_unused false o) b.
+Proof. exact unused_exact. Qed.
+
+Theorem C14_unused_data_inert : forall o x b, fw_T (fld 2 0 b) = false ->
+  s_decode (with_unused x o) b = s_decode o b.
+Proof. exact unused_data_inert. Qed.
+
+(** with a check switched off its bits do not affect the result: two flag words
+    that agree on everything the options let the decoder look at give the same
+    result over the same remainder *)
+Theorem C14_bits_inert : forall o w w' rest, w < 65536 -> w' < 65536 -> same_view o w w' ->
+  s_decode o (be16 w ++ rest) = s_decode o (be16 w' ++ rest).
+Proof. exact bits_inert. Qed.
+
+Theorem C14_default : default_opts = {| v_reserved := false; v_version := true; v_unused := false |}
+  /\ forall b, m_try_read b = m_decode default_opts b.
+Proof. exact default_is_version_only. Qed.
+
+(** non-vacuity: reserved bit 13 alone, version 2, control: rejected exactly by the reserved check *)
+Example C14_bit13 :
+  let b := [51;32;0;12;0;0;0;0;0;0;0;0] in
+  is_Ok (s_decode {| v_reserved := false; v_version := true; v_unused := true |} b) = true /\
+  s_decode strict_opts b = Err [InvalidReservedBits].
+Proof. split; vm_compute; reflexivity. Qed.
+
+Print Assumptions C14_monotone.
+Print Assumptions C14_reject_monotone.
+Print Assumptions C14_version_exact.
+Print Assumptions C14_reserved_exact.
+Print Assumptions C14_unused_exact.
+Print Assumptions C14_unused_data_inert.
+Print Assumptions C14_bits_inert.
+Print Assumptions C14_default.
